@@ -268,3 +268,15 @@ PROPS['C16'].update(run_files=['Tie.v', 'TieWf.v', 'PropsC16.v'], static_files=M
 PROPS['C19'].update(run_files=['Tie.v', 'TieAlloc.v', 'TieWf.v', 'PropsC16.v'], static_files=MACH_STATIC + ['AllocSpec.v', 'Frame.v'])
 TEXT['C16']['level'] = ('PROOF for the part a pure model carries + run-time checks for the heap: Frame.dst_frame (for ANY machine: running with destination d0 = running with the empty destination, result prefixed by d0) lifted to PropsC16: ReadStringBytes / UnescapeStringContent append exactly what they produce with an empty destination, same offset and error; ReadString results do not depend on the scratch buffer. Heap facts a model cannot exhibit (input never written, destination prefix untouched, returned strings not aliasing buffers) are checked at run time: input snapshots, 0xAA-filled spare capacity, overwrite of input and buffers after the call, string-buffer histories')
 TEXT['C19']['level'] = ('PARTIAL: proof-of-model + measurement. Coq: (1) Frame.rerun_no_growth / no_growth_when_warm / warm_after_use instantiated in PropsC16: a machine run with the stack returned by an earlier run on a document at least as deeply nested performs zero stack-growth events; (2) the inventory of allocation-capable expressions and call targets of every covered function, regenerated from /repo on every run, equals the recorded one whose every entry is capacity-guarded or on an error path (AllocSpec.v, TieAlloc). Run time: testing.AllocsPerRun = 0 on ~2000 warm successful calls over 30 functions on every conversion path and depth up to 10000; >= 1 on a cold buffer')
+
+PROPS['C04']['suites'] = ['fp', 'c04edge', 'c04gap']
+PROPS['C09']['oracle'] = True
+for _p, _fs in (('C11', ['Ref.v', 'SpecFacts.v', 'SpecFacts2.v']), ('C07', ['Ref.v', 'SpecFacts.v', 'SpecFacts2.v']), ('C06', ['Ref.v', 'SpecFacts.v', 'SpecFacts3.v']), ('C16', ['Ref.v', 'SpecFacts.v', 'SpecFacts3.v'])):
+    PROPS[_p]['static_files'] = PROPS[_p]['static_files'] + _fs
+
+for _p in ('C06', 'C07', 'C11'):
+    PROPS[_p]['run_files'] = PROPS[_p]['run_files'] + ['PropsC02.v', 'PropsC07.v']
+    PROPS[_p]['static_files'] = PROPS[_p]['static_files'] + ['ApiFacts.v']
+TEXT['C06']['level'] = ('PROOF, end to end on the model: PropsC07.C06_ReadStringBytes_exact: for ALL inputs and destinations ReadStringBytes (model over the REGENERATED appendRemainderOfString table) succeeds exactly when Ref.read_string_ref does, with the offset after the closing quote and the value = destination ++ decoded content (surrogate pairs combined, lone surrogates -> U+FFFD, raw bytes verbatim); SpecFacts3.unescape_agrees_append: unescaping the bytes between the quotes gives the same content and consumes all of them. Correspondence: all contents <= 3 over 22 bytes, every byte at every position, \\u classes, surrogate grids, corrupted second escapes, capacity boundaries; oracle = reference decoder written from the property text')
+TEXT['C07']['level'] = ('PROOF, end to end on the model: PropsC07.C07_array_traversal / C07_object_traversal: for ALL inputs and ALL well-behaved handlers (each call answered 0 or the exact end of its value) the traversal over the REGENERATED tables succeeds exactly when Ref.members_ref does (null, or a well-formed array/object), the handler calls are exactly the members in document order at the first byte of each value with the raw key bytes, the offset is just after the closing bracket. Correspondence: state x byte sweeps (insert/substitute at every state), exhaustive {0,exact}^k strategy vectors, documents+mutants; oracle = member list via json.Decoder')
+TEXT['C11']['level'] = ('PROOF, end to end on the model: PropsC07.C11_SkipValueFast_agrees_with_SkipValue: for ALL inputs and buffers, whenever SkipValue succeeds with offset n SkipValueFast succeeds with offset n (both over the REGENERATED tables, through their spec machines and SpecFacts2.fast_agrees_spec). Correspondence: sweep of skipValueFast, strings with brackets/quotes/backslashes in 5 templates x following byte; oracle = json.Decoder offset where the strict skip succeeds')
